@@ -105,20 +105,25 @@ def run_c09(tier, args):
     out = scratch_dir("C09")
     n = 30000 if tier == "quick" else 600000
     first = first_run_seed()
-    nreg, regbad = run_regressions("C09", lambda t: binary)
-    b = run_batch(binary, "C09", tier, first, n, out)
+    known = load_known("C09")
+    extra = ["--known", ",".join(sorted(known))] if known else []
+    nreg, regbad = run_regressions("C09", lambda t: binary, extra=extra)
+    b = run_batch(binary, "C09", tier, first, n, out, extra=extra)
     log("[C09] %d plans in %.1fs, %d violating, %d worker restarts" % (b.runs, b.wall, len(b.violations), b.worker_deaths))
-    nviol, herr = gate_and_report("C09", binary, b, out, tier=tier, max_reports=6)
+    nviol, herr = gate_and_report("C09", binary, b, out, extra=extra, tier=tier, max_reports=6)
     nviol += regbad
     total = b
     if tier == "thorough":
         da = build("asan")
-        ba = run_batch(os.path.join(da, "fsim"), "C09", tier, first + n, 20000, out, env=dict(os.environ, ASAN_OPTIONS="detect_leaks=0:exitcode=77:detect_stack_use_after_return=0", UBSAN_OPTIONS="halt_on_error=1:exitcode=77"))
+        ba = run_batch(os.path.join(da, "fsim"), "C09", tier, first + n, 20000, out, extra=extra, env=dict(os.environ, ASAN_OPTIONS="detect_leaks=0:exitcode=77:detect_stack_use_after_return=0", UBSAN_OPTIONS="halt_on_error=1:exitcode=77"))
         log("[C09] ASan+UBSan build: %d plans, %d violating" % (ba.runs, len(ba.violations)))
-        v2, e2 = gate_and_report("C09", os.path.join(da, "fsim"), ba, out, tier=tier)
+        v2, e2 = gate_and_report("C09", os.path.join(da, "fsim"), ba, out, extra=extra, tier=tier)
         nviol += v2
         herr |= e2
         total.merge(ba)
+    for sig, ent in sorted(known.items()):
+        if total.known.get(sig):
+            log("KNOWN-FINDING: property=C09 %s (%d occurrences this run; first at seed %d)" % (ent["what"], total.known[sig], total.known_first.get(sig, 0)))
     wall = time.time() - t0
     applied = {k: v for k, v in sorted(total.counters.items()) if k.startswith("fault.applied.") or k.startswith("fsconfig.applied.") or k.startswith("fault.fired.")}
     cov = dict(
@@ -143,7 +148,8 @@ def run_c09(tier, args):
 
 def replay(prop, path):
     d = build()
-    viol, sig, fp, outp = exec_plan(os.path.join(d, "fsim"), path)
+    known = load_known(prop)
+    viol, sig, fp, outp = exec_plan(os.path.join(d, "fsim"), path, extra=["--known", ",".join(sorted(known))] if known else [])
     log(outp.strip()[-3000:])
     if viol:
         log("VIOLATION property=%s replay=%s" % (prop, path))
